@@ -8,7 +8,9 @@ Local Open Scope Z_scope.
 Inductive case :=
 | CDelay (explicit : option Z) (max : Z) (min_impl : option Z) (i r : Z) (observed : Z)
     (* min_impl: what config.Parse produced for MinInterval (None = configuration rejected) *)
-| CLoop (min max : Z) (t0 : Z) (draws : list Z) (observed : list Z) (expected_n : nat).
+| CLoop (min max : Z) (t0 : Z) (draws : list Z) (observed : list Z) (expected_n : nat)
+| CStall (min max : Z) (t0 : Z) (draws gaps : list Z) (observed : list Z) (expected_n : nat).
+    (* the consumer is ready for the n-th request only gaps[n] after it took the previous one; observed = instants taken *)
 
 Fixpoint zlist_eqb (a b : list Z) : bool :=
   match a, b with
@@ -25,6 +27,7 @@ Definition agree (c : case) : bool :=
       optz_eqb (parse_min_interval e max) mi &&
       match mi with Some min => multicast_delay i min max r =? obs | None => true end
   | CLoop min max t0 draws obs _ => zlist_eqb (request_times 0 t0 min max draws) obs
+  | CStall min max t0 draws gaps obs _ => zlist_eqb (taken_times 0 t0 t0 min max draws gaps) obs
   end.
 
 (* specification, from the property text: literals 3, 16 s, one-second granularity *)
@@ -40,6 +43,17 @@ Fixpoint waits_in_spec (min max i : Z) (l : list Z) : bool :=
   | _ => true
   end.
 
+(* with a slow consumer a wait is visible whenever the consumer was ready before the next request was
+   offered (R_{n+1} > R_n + gap_{n+1}); then R_{n+1} - R_n is the wait the loop chose *)
+Fixpoint stalled_waits_in_spec (min max i : Z) (l gaps : list Z) : bool :=
+  match l with
+  | a :: ((b :: _) as tl) =>
+      let g := match gaps with x :: _ => x | [] => 0 end in
+      (if a + g <? b then wait_in_spec min max i (b - a) else (b =? a + g)) &&
+      stalled_waits_in_spec min max (i + 1) tl (List.tl gaps)
+  | _ => true
+  end.
+
 Definition holds (c : case) : bool :=
   match c with
   | CDelay e max mi i r obs =>
@@ -50,6 +64,8 @@ Definition holds (c : case) : bool :=
   | CLoop min max t0 draws obs n =>
       (Nat.eqb (length obs) n) && waits_in_spec min max 0 obs &&
       match obs with t :: _ => t =? t0 | [] => false end
+  | CStall min max t0 draws gaps obs n =>
+      (Nat.eqb (length obs) n) && stalled_waits_in_spec min max 0 obs (List.tl gaps)
   end.
 
 Definition known (c : case) : N := 0%N.
